@@ -139,6 +139,16 @@ def json_case(case, ctx):
             ctx.v(ID, "json:attrs", "%s: attrs %r, expected the JSON-representable entries %r" % (label, r.attrs, case["attrs"]))
     d2, exc = ctx.call("from_jsondict(to_jsondict(a))", lambda: da.DimArray.from_jsondict(a.to_jsondict()), operands=(a,))
     common.expect(ctx, ID, "jsondict", "from_jsondict(to_jsondict(a)) " + label, d2, exc, exp=m, must_be_da=True)
+    # the dictionary form can be restored more than once: it is left as it was
+    import copy as _copy
+    jd = a.to_jsondict()
+    jd0 = _copy.deepcopy(jd)
+    for rep in (1, 2):
+        d3, exc = ctx.call("from_jsondict(d) #%d" % rep, lambda: da.DimArray.from_jsondict(jd), operands=(a,))
+        if not common.expect(ctx, ID, "jsondict-reuse", "from_jsondict(d), use %d of the same dictionary, %s" % (rep, label), d3, exc, exp=m, must_be_da=True):
+            break
+    if monitors.freeze(jd) != monitors.freeze(jd0):
+        ctx.v(ID, "jsondict-argument-modified", "from_jsondict(d) changed the dictionary it was given: keys now %r, were %r (%s)" % (sorted(jd), sorted(jd0), label))
     return ('json', m.ndim, tuple(sp["kinds"]), m.values.dtype.kind, bool(np.isnan(m.values.astype(float)).any()) if m.values.size else False,
             tuple(sorted(case["attrs"])), case["bad_attr"])
 
